@@ -874,7 +874,7 @@ def m_unit(ex, st, callee, args, dest_ty):
 BASE_MODELS = [
     (R(r"^<[A-Za-z_:]*[A-Z][A-Z0-9_]+ as Deref>::deref$"), m_lazy_deref),
     (R(r"^<((std::string::)?String|Vec<.*>|&.*) as Deref(Mut)?>::deref(_mut)?$"), m_deref_identity),
-    (R(r"^String::as_str$|^<String as AsRef<str>>::as_ref$|^String::as_mut_str$|^<str as AsRef<str>>::as_ref$"), m_deref_identity),
+    (R(r"^(std::string::)?String::as_str$|^<String as AsRef<str>>::as_ref$|^String::as_mut_str$|^<str as AsRef<str>>::as_ref$"), m_deref_identity),
     (R(r" as Clone>::clone$| as ToOwned>::to_owned$"), m_clone),
     (R(r"^<str as ToString>::to_string$|^<String as ToString>::to_string$|^<str as ToOwned>::to_owned$|^<String as From<&str>>::from$|^must_use::<.*>$|^<&str as Into<String>>::into$|^<&str as ToString>::to_string$"), m_clone),
     (R(r" as PartialEq(<.*>)?>::(eq|ne)$"), m_partial_eq),
